@@ -96,6 +96,17 @@ def compare(ctx, cfg, pg, dim_max):
             if not (abs(gc - cov[i][j]) <= 1e-6 * scale + 1e-300):
                 ctx.violation(f'get_cov:{kind}', cfg=cfg, kind=kind, i=i, j=j, expected=cov[i][j], observed=gc, scale=scale)
                 bad = True; break
+            if 0 < i < n and 0 < j < n:
+                # the documented route through the Coalescent with explicit SFS rewards
+                RW = pg.UnfoldedSFSReward if kind == 'u' else pg.FoldedSFSReward
+                with C.LogCapture():
+                    cm = float(coal.moment(2, (RW(i), RW(j))))
+                    c1 = float(coal.moment(1, (RW(i),)))
+                if not (abs(cm - cov[i][j]) <= 1e-6 * scale + 1e-300) or not (abs(c1 - mean[i]) <= 1e-7 * abs(mean[i]) + 1e-300):
+                    ctx.violation(f'coalescent-moment-route:{kind}', cfg=cfg, kind=kind, i=i, j=j, expected_cov=cov[i][j], observed_cov=cm,
+                                  expected_mean=mean[i], observed_mean=c1, scale=scale,
+                                  route='Coalescent.moment(2, (SFSReward(i), SFSReward(j))) / moment(1, (SFSReward(i),))')
+                    bad = True; break
             if sd[i] > 1e-9 and sd[j] > 1e-9:
                 with C.LogCapture():
                     gr = float(dist.get_corr(i, j))
